@@ -1,6 +1,6 @@
 (* C20 - closing or losing the link never strands a caller and is reported once. *)
 From Coq Require Import NArith List Bool.
-From ZB Require Import Api.Api Api.ApiProofs.
+From ZB Require Import Api.Api Api.ApiProofs Api.ApiLive gen.GenConsts.
 Import ListNotations.
 Open Scope N_scope.
 
@@ -33,10 +33,48 @@ Theorem C20_no_waiter_survives : forall evs, Forall good (reqs (run_events evs))
 Proof. exact finished_requests_have_no_pending_waiter. Qed.
 Print Assumptions C20_no_waiter_survives.
 
-(* termination within the ACK wait after close: decided on the model for this scenario by computation (the general
-   statement "for all histories, all_done after Close; Tick ACK_TIMEOUT" is checked by the correspondence monitor
-   at every quiescent point of the scenarios, not yet proved: C20_termination is PARTIAL) *)
+(* ---------------------------------------------------------------------------------------------------------------
+   TERMINATION.  An event list is well-formed when every issue announces at least one fragment (C09). *)
+
+(* the scheduler never stops for lack of fuel: after every event the system is quiescent (no woken task left unrun);
+   LI (uart present -> transport open) holds in every reachable state (C20_link_invariant) *)
+Theorem C20_link_invariant : forall evs, LI (run_events evs).
+Proof. exact LI_reachable. Qed.
+Print Assumptions C20_link_invariant.
+Theorem C20_scheduler_always_drains : forall s w, LI s -> snd (run' (S (potential s w)) s w) = [].
+Proof. exact settle_drains. Qed.
+Print Assumptions C20_scheduler_always_drains.
+
+(* after close() (no reset in progress) every request that was in flight or queued - in whatever phase: waiting for the
+   blocking lock, for the transmit slot, for an ACK, for its response - has ended once the acknowledgement wait has
+   passed: none waits for its response timeout or forever *)
+Theorem C20_close_terminates : forall evs dt, wf_events evs ->
+  reset_in_progress (run_events evs) = false -> ack_timeout_ms <= dt ->
+  forallb is_done (reqs (step (step (run_events evs) EClose) (ETick dt))) = true.
+Proof. exact close_terminates. Qed.
+Print Assumptions C20_close_terminates.
+
+(* ... whatever else happens in between (more requests, which are refused; repeated close; loss; resets; stale ACKs
+   and responses): closing again is harmless *)
+Theorem C20_close_terminates_whatever_follows : forall evs evs' dt, wf_events evs -> wf_events evs' ->
+  reset_in_progress (run_events evs) = false -> ack_timeout_ms <= dt ->
+  forallb is_done (reqs (run_events (evs ++ [EClose] ++ evs' ++ [ETick dt]))) = true.
+Proof. exact close_terminates_general. Qed.
+Print Assumptions C20_close_terminates_whatever_follows.
+
+(* when the connection is lost, requests in flight still terminate by their timeout: all have ended once the
+   acknowledgement wait plus the longest response timeout T has passed *)
+Theorem C20_loss_terminates_by_timeout : forall evs dt T, wf_events evs ->
+  (forall r, In r (reqs (run_events evs)) -> r_timeout r <= T) -> ack_timeout_ms + T <= dt ->
+  forallb is_done (reqs (step (step (run_events evs) ELost) (ETick dt))) = true.
+Proof. exact lost_terminates. Qed.
+Print Assumptions C20_loss_terminates_by_timeout.
+
+(* the hypotheses are met by a history with four requests in four different phases at close time; all four end *)
 Example C20_termination_instance :
-  let s := run_events [EIssue 1 10 true 1 5000; EIssue 2 11 true 1 5000; EIssue 3 12 false 2 5000; EAck 0; EClose; ETick 1000] in
-  forallb is_done (reqs s) = true /\ now s = 1000.
-Proof. vm_compute. split; reflexivity. Qed.
+  wf_events ex_evs /\ reset_in_progress (run_events ex_evs) = false /\
+  map (fun r => (r_id r, r_phase r)) (reqs (run_events ex_evs)) =
+    [(1%nat, PAwaitRsp 5000); (2%nat, PAwaitAck 0 1000); (3%nat, PQMsg); (4%nat, PQBlock)] /\
+  map (fun r => (r_id r, r_phase r)) (reqs (step (step (run_events ex_evs) EClose) (ETick 1000))) =
+    [(1%nat, PDone OCancelled); (2%nat, PDone ORuntime); (3%nat, PDone ORuntime); (4%nat, PDone ORuntime)].
+Proof. exact close_terminates_nonvacuous. Qed.
